@@ -60,6 +60,10 @@ pub enum HMode {
     Prompt(&'static str),
     /// handler reports a parse error (the library prints `error: unknown command`)
     ParseErr,
+    /// handler reports one of the other parse errors (1 missing argument, 2 unparsable value, 3 unexpected
+    /// argument, 4 unexpected long option, 5 unexpected short option with a multi-byte name): each is printed
+    /// by its own sequence of writes in `Cli::process_error`
+    ParseErrKind(u8),
     /// a script of writer calls, then the handler reports a parse error
     ScriptErr(&'static [Piece]),
     /// a script of writer calls and a prompt change
@@ -330,6 +334,15 @@ impl<'a> CommandProcessor<Sink, SinkErr> for H<'a> {
             HMode::Script(s) => run_script(cli.writer(), s)?,
             HMode::Prompt(p) => cli.set_prompt(p),
             HMode::ParseErr => return Err(ProcessError::ParseError(ParseError::UnknownCommand)),
+            HMode::ParseErrKind(k) => {
+                return Err(ProcessError::ParseError(match k {
+                    1 => ParseError::MissingRequiredArgument { name: "<X>" },
+                    2 => ParseError::ParseValueError { value: "vé", expected: "u8" },
+                    3 => ParseError::UnexpectedArgument { value: "extra" },
+                    4 => ParseError::UnexpectedLongOption { name: "zz" },
+                    _ => ParseError::UnexpectedShortOption { name: 'é' },
+                }))
+            }
             HMode::ScriptErr(s) => {
                 run_script(cli.writer(), s)?;
                 return Err(ProcessError::ParseError(ParseError::UnknownCommand));
